@@ -100,7 +100,7 @@ def gen_ruleset(rng, max_rules=6, max_ns=3, depth=2, allow_for=True, cond_kinds=
                     if ksel == "expr":
                         se = ("int", rng.choice([0, 1, 2, n, n + 1]))
                     if ksel == "pct":
-                        cands = [p for p in [1, 50, 100, 150] if __import__("math").ceil(p / 100.0 * n) == -((-p * n) // 100)]
+                        cands = [p for p in [1, 50, 100, 150] if cond.pct_exact(p, n)]
                         se = ("int", rng.choice(cands))
                     forbidden.setdefault(ns, set()).add(pref)
                     return ("forrules", ksel, se, already, sorted(elems), pref + "*")
